@@ -1196,9 +1196,11 @@ class MeshRegion:
                 )
 
             # calculate curl on x-y grid
+            # Note x = psi (so dx and J are negative when psi decreases outwards): the
+            # contravariant components below are with respect to Grad(x) = Grad(psi), as
+            # in the "curl(b/B)" form, and so contain no factor bpsign
             self.curl_bOverB_x = (
                 -2.0
-                * self.bpsign
                 * self.Bpxy
                 * self.Btxy
                 * self.Rxy
@@ -1206,7 +1208,7 @@ class MeshRegion:
                 * self.DDY("#Bxy")
             )
             self.curl_bOverB_y = (
-                -self.bpsign * self.Bpxy / self.hy * self.DDX("#Btxy*#Rxy/#Bxy**2")
+                -self.Bpxy / self.hy * self.DDX("#Btxy*#Rxy/#Bxy**2")
             )
             self.curl_bOverB_z = (
                 self.Bpxy**3 / (self.hy * self.Bxy**2) * self.DDX("#hy/#Bpxy")
